@@ -4,6 +4,9 @@ CONSTANTS MaxDepth = 3
           Vals <- MCVals
           Limits <- LimitsQ
           MaxClose = 2
+          DocAlpha <- DocsQ
+          DocLen = 2
+          DocDepth = 1
           SimLen = 0
           SimLimits <- LimitsQ
 INVARIANTS Emit
